@@ -49,11 +49,11 @@ class ArraySchemaBackend(PandasSchemaBackend):
                 "When drop_invalid_rows is True, lazy must be set to True."
             )
 
-        # fill nans with `default` if it's present
-        if hasattr(schema, "default") and schema.default is not None:
-            check_obj = self.set_default(check_obj, schema)
-
         try:
+            # fill nans with `default` if it's present
+            if hasattr(schema, "default") and schema.default is not None:
+                check_obj = self.set_default(check_obj, schema)
+
             if is_field(check_obj) and schema.coerce:
                 check_obj = self.coerce_dtype(check_obj, schema=schema)
             elif schema.coerce:
@@ -372,12 +372,12 @@ class ArraySchemaBackend(PandasSchemaBackend):
         if is_field(check_obj) and not isinstance(
             check_obj.dtype, pd.SparseDtype
         ):
-            check_obj = check_obj.fillna(schema.default)
+            check_obj = self.fill_default(check_obj, schema)
         elif not is_field(check_obj) and not isinstance(
             check_obj[schema.name].dtype, pd.SparseDtype
         ):
-            check_obj[schema.name] = check_obj[schema.name].fillna(
-                schema.default
+            check_obj[schema.name] = self.fill_default(
+                check_obj[schema.name], schema
             )
 
         return check_obj
